@@ -149,12 +149,7 @@ def Map.run : Map V → List (Op V) → List (Out V) := runSpec Map.step
 
 end Spec
 
-/-! ## the histories `C06_patricia_partial` covers -/
-
-/-- everything except Delete / DeleteMin / DeleteMax -/
-def Op.patriciaScope : Op V → Bool
-  | .delete _ | .deleteMin | .deleteMax => false
-  | _ => true
+/-! ## the histories `C06_patricia` covers -/
 
 /-- `Put k` stores a non-empty key whose bits stay below the length positions of `bitString`
 (`8 * len(k) ≤ lenPos = 2^30`, i.e. keys shorter than 128 MiB); `WithPrefix p`: `p` is that short -/
@@ -163,9 +158,9 @@ def Op.smallKeys : Op V → Bool
   | .withPrefix p => decide (8 * p.length ≤ BitString.lenPos)
   | _ => true
 
-/-- a history in scope whose stored keys are non-empty and that small -/
+/-- a history whose stored keys are non-empty and that small -/
 def PatriciaHistory : List (Op V) → Bool
   | [] => true
-  | op :: ops => op.patriciaScope && op.smallKeys && PatriciaHistory ops
+  | op :: ops => op.smallKeys && PatriciaHistory ops
 
 end AlgoVerif.C06
